@@ -117,14 +117,19 @@ def run_check(engine, prop, tier, master_seed, tasks, workers, level="exploratio
 
     # ---- replay files, known findings ----------------------------------------------------------
     known = load_known_findings(prop)
+    needs_min = getattr(engine, "KEY_NEEDS_MINIMISATION", True)
     known_hit = {}
     unknown = []
     tree = tree_fingerprint()
     for rep in reports:
         key = engine.finding_key(rep["scenario"], rep["result"])
-        if not rep.get("minimised"):
+        if not rep.get("minimised") and needs_min:
             key = {**key, "unminimised": True}
         rep["finding_key"] = key
+        hit = next((e for e in known if (rep.get("minimised") or not needs_min) and match_known(e, key)), None)
+        if hit is not None and len(known_hit.get(hit["what"], [])) >= 3:
+            known_hit[hit["what"]].append({"path": known_hit[hit["what"]][0]["path"]})
+            continue   # enough replay files for this listed finding
         path = replay_path(prop, rep["seed"])
         jdump({"property": prop, "engine": engine.NAME, "seed": rep["seed"], "tree": tree,
                "scenario": rep["scenario"], "violation": rep["result"]["violations"][0],
@@ -133,7 +138,6 @@ def run_check(engine, prop, tier, master_seed, tasks, workers, level="exploratio
                "minimiser_runs": rep.get("tried"), "note": rep.get("note"),
                "original_scenario": rep.get("original")}, path)
         rep["path"] = path
-        hit = next((e for e in known if rep.get("minimised") and match_known(e, key)), None)
         if hit is not None:
             known_hit.setdefault(hit["what"], []).append(rep)
         else:
